@@ -149,4 +149,18 @@ def suite_pairs(ctx):
     return s
 
 
-SUITES = [suite_hist, suite_pairs]
+def suite_two_clients(ctx):
+    """a second client object in the same process (inside a suppress block, a payload override, with adopted timing, reconfigured, after a failed call) never shows
+    in this client's frames, waits or outcome: the C15 two_clients suite, run here as well"""
+    from . import c15
+    return c15.suite_two_clients(ctx)
+
+
+def suite_reentrant(ctx):
+    """the pending-response callback uses the client it belongs to: the request in flight goes on as if the callback had done nothing (frames, outcome, instant,
+    adopted timing) - harness/reentrant.py"""
+    from .. import reentrant
+    return reentrant.suite_reentrant(ctx)
+
+
+SUITES = [suite_hist, suite_pairs, suite_two_clients, suite_reentrant]
